@@ -662,9 +662,14 @@ func allocSize(lv, cv value) (int64, int64) {
 		panic(targetRuntimeError("makeslice: len out of range"))
 	}
 	if c > int64(R.cfg.MaxAlloc) {
-		R.markReach("abstraction:alloc-beyond-engine-bound")
-		R.pruned = true
-		panic(runAbort{"allocation beyond engine bound"})
+		// a buffer larger than anything the harness can fill is represented by one of
+		// MaxAlloc elements (counted as an abstraction; counterexamples are replayed natively)
+		R.markReach("abstraction:huge-alloc-clamped")
+		R.abstractions++
+		if n > int64(R.cfg.MaxAlloc) {
+			n = int64(R.cfg.MaxAlloc)
+		}
+		c = int64(R.cfg.MaxAlloc)
 	}
 	return n, c
 }
